@@ -117,6 +117,10 @@ def instances():
         add('lea eax, %s' % t, 'lea', 32, 'r32,m')
         add('lea cx, %s' % t, 'lea', 16, 'r16,m')
     add('lea esp, [esp+8]', 'lea', 32, 'esp'); add('lea ebx, [ebx+ebx*8+0x12345678]', 'lea', 32, 'scaled')
+    # 16-bit effective addresses (address-size prefix): the address wraps at 16 bits and is zero-extended into a 32-bit destination
+    for t in ('[bx+si]', '[bx+di+0x10]', '[bp+si-0x80]', '[bp+di+0x7000]', '[si+0x8000]', '[di-1]', '[bx+0x1234]', '[bp+0]'):
+        add('lea eax, %s' % t, 'lea', 32, 'r32,m16addr')
+        add('lea dx, %s' % t, 'lea', 16, 'r16,m16addr')
     for mn in ('xchg', 'xadd', 'cmpxchg'):
         for size in (8, 16, 32):
             rs = R[size]
@@ -304,7 +308,7 @@ def make_state(inst, rng, k):
         regs['edx'] = rng.choice((0, 0, 1, 0xffffffff)) if inst['size'] == 32 else ((regs['edx'] & 0xffff0000) | rng.choice((0, 0, 1, 0xffff)))
         if inst['size'] == 8:
             regs['eax'] = (regs['eax'] & 0xffff0000) | rng.getrandbits(12)
-    flags = dict((f, rng.getrandbits(1)) for f in O.FLAG_BITS)
+    flags = dict((f, rng.getrandbits(1)) for f in O.ARITH_FLAGS)
     if k < 8:
         flags['cf'], flags['zf'], flags['df'] = k & 1, (k >> 1) & 1, (k >> 2) & 1
     hot = bytearray(rng.getrandbits(8) for _ in range(O.HOT))
@@ -314,7 +318,7 @@ def make_state(inst, rng, k):
     if inst['extra'].get('popf'):
         # the popped image may only set status flags and DF (no TF/IF/NT/AC/ID changes)
         off = regs['esp'] - O.HOT_ADDR
-        v = 0x202 | O.pack_eflags(dict((f, rng.getrandbits(1)) for f in O.FLAG_BITS))
+        v = 0x202 | O.pack_eflags(dict((f, rng.getrandbits(1)) for f in O.ARITH_FLAGS))
         hot[off:off + 4] = struct.pack('<I', v)
     if inst['form'] in ('m', 'm-sib') and inst['mn'] in ('jmp', 'call') or inst['mn'] == 'ret':
         pass   # targets are arbitrary: the step is taken, only the new eip is read
